@@ -141,6 +141,16 @@ def gen_children(repo, args, lines):
             out.append('pub open spec fn children_%s(x: %s) -> Seq<Expression> {\n    match x {\n%s\n    }\n}' % (name, name, '\n'.join(arms)))
             out.append('pub open spec fn mapped_%s<F: Fn(Expression) -> Result<Expression, Error>>(x: %s, o: %s, f: F) -> bool {\n    match (x, o) {\n%s\n        _ => false,\n    }\n}' % (
                 name, name, name, '\n'.join(marms)))
+            if 'reduced' in (lines or []) or any('reduced' in l for l in (lines or [])):
+                rarms = []
+                for v, ts in body:
+                    xs = ['a%d' % i for i in range(len(ts))]
+                    ys = ['b%d' % i for i in range(len(ts))]
+                    pat = '%s::%s%s' % (name, v, '(%s)' % ', '.join(xs) if xs else '')
+                    pat2 = '%s::%s%s' % (name, v, '(%s)' % ', '.join(ys) if ys else '')
+                    rarms.append('        (%s, %s) => %s,' % (pat, pat2, ' && '.join('%s.rel_reduce(Ok(%s))' % (a, b) for a, b in zip(xs, ys)) or 'true'))
+                out.append('// every operand of every variant is reduced (generated from the enum definition)')
+                out.append('pub open spec fn reduced_%s(x: %s, o: %s) -> bool {\n    match (x, o) {\n%s\n        _ => false,\n    }\n}' % (name, name, name, '\n'.join(rarms)))
     return '\n'.join(out) + '\n', info
 
 
